@@ -25,7 +25,7 @@ MANIFEST_ENTRY = dict(
 
 def scenarios(ctx: Ctx):
     rng = random.Random(ctx.seed * 104729 + 12)
-    n = 700 if ctx.quick else 12000
+    n = 400 if ctx.quick else 12000
     topos = rtcheck.topologies(rng, ctx.quick)
     scs = []
     lib = ['C', 'C2', 'L']
@@ -56,8 +56,8 @@ def run(ctx: Ctx) -> Outcome:
     if ctx.replay:
         return rtcheck.replay_outcome('C12', ctx, also=('C07',))
     scs = scenarios(ctx)
-    model_cov, extra_scs, notes = rtmodel.model_check_and_generate('C12', ctx)
-    out = rtcheck.validate('C12', scs + extra_scs, ctx, also=('C07',), extra_cov=model_cov)
+    model_cov, guided, notes = rtmodel.model_check_and_generate('C12', ctx)
+    out = rtcheck.validate('C12', scs, ctx, extra_traces=guided, also=('C07',), extra_cov=model_cov)
     out.notes += notes
     out.assumptions = ['cancelled work is computed by the specification from the observed cancel / completion / disconnect events',
                        'the idle snapshot is taken when no thread of any node can make a step and every client call has returned']
